@@ -212,6 +212,7 @@ def facts : Facts := {
   buildPathCallersOK := true
   scratchPooledAndCleared := true
   rollbackOnFailedBuild := true
+  buildProtocol := true
   hotPathHeapSites := 0
   hotPathHeapSiteList := []
   escapeAnalysisRan := true
